@@ -27,6 +27,7 @@ class RunCtx:
         self.consults = {}       # agent_id -> number of submit_orders calls
         self.own_orders = {}     # agent_id -> list of Order objects it created
         self.snap = {}           # id(order) -> what the agent asked for (before any event touched it)
+        self.cancel_objs = {}    # id(order) -> the Cancel object handed in for it (menu cancel_objects = "reused")
         self.runner = None
         self.sim = None
         self.logger = None
@@ -112,7 +113,14 @@ def _decide(agent, markets):
             if not mine:
                 break
             o = mine[g.choice(f"{tag}_which", len(mine))]
-            out.append(Cancel(order=o))
+            how = menu.get("cancel_objects", "fresh")
+            if how == "stamped":          # a request object prepared earlier: it already carries a time stamp
+                c = Cancel(order=o, placed_at=0)
+            elif how == "reused":         # the same request object handed in again
+                c = ctx.cancel_objs.setdefault(id(o), Cancel(order=o))
+            else:
+                c = Cancel(order=o)
+            out.append(c)
             continue
         side = (per_agent or {}).get("side", menu.get("side"))
         sbt = (per_agent or {}).get("side_by_time")
